@@ -39,7 +39,7 @@ SQL_NAMES = {"Column", "Integer", "String", "Float", "Boolean", "Enum", "JSON", 
              "LargeBinary", "ARRAY", "ForeignKey", "MetaData"}
 
 
-def make_input(kind, entries, d, g, salt):
+def make_input(kind, entries, d, g, salt, mixed=False):
     import cdd.argparse_function.emit
     import cdd.class_.emit
     import cdd.function.emit
@@ -52,7 +52,9 @@ def make_input(kind, entries, d, g, salt):
     for e in entries:
         nm = ENTRY_NAMES[e]
         ir = g.iface(IFACES[e], salt, name=nm)
-        if kind in ("class", "infer"):
+        if mixed and e == "E2":
+            n = cdd.sqlalchemy.emit.sqlalchemy(copy.deepcopy(ir), class_name=nm, table_name=nm.lower())
+        elif kind in ("class", "infer"):
             n = cdd.class_.emit.class_(copy.deepcopy(ir), class_name=nm)
         elif kind == "pydantic":
             n = cdd.pydantic.emit.pydantic(copy.deepcopy(ir), class_name=nm)
@@ -93,7 +95,7 @@ def run_case(args):
     try:
         try:
             with contextlib.redirect_stdout(io.StringIO()), contextlib.redirect_stderr(io.StringIO()):
-                inp = make_input(o["parse"], entries, d, g, salt)
+                inp = make_input(o["parse"], entries, d, g, salt, mixed=o.get("mixed", False))
         except Exception as e:  # noqa
             res["skip"] = "input of kind {} cannot be produced: {}".format(o["parse"], type(e).__name__)
             return res
@@ -199,7 +201,7 @@ def run_case(args):
                     continue
                 i = IFACES[e]
                 ps = [{"present": True, "wild": False, "typs": [p["typ"]], "def": p["def"], "doc": p["doc"]} for p in i["params"]]
-                if o["parse"] == "sqlalchemy":
+                if o["parse"] == "sqlalchemy" or (o.get("mixed") and e == "E2"):
                     # the source entry itself (a SQLAlchemy class) carries the synthetic primary key; the fidelity of the
                     # SQL parser is C05's subject, here names and order are compared
                     ps.append({"present": True, "wild": False, "name": "id", "typs": ["int"], "def": "absent", "doc": "pkonly"})
@@ -265,7 +267,7 @@ def _check(run, replay, work):
         # every (parse, emit, out_present) cell at least once, the rest sampled
         cells = {}
         for c in cases:
-            cells.setdefault((c["o"]["parse"], c["o"]["emit"], c["o"]["out_present"], c["o"]["infer_imports"]), []).append(c)
+            cells.setdefault((c["o"]["parse"], c["o"]["emit"], c["o"]["out_present"], c["o"]["infer_imports"], c["o"]["mixed"]), []).append(c)
         cases = [rnd.choice(v) for k, v in sorted(cells.items())] + rnd.sample(cases, 300)
     else:
         run.exhaustive = True
@@ -283,8 +285,9 @@ def _check(run, replay, work):
         key = json.dumps(o, sort_keys=True)
         for d in case["devs"]:
             run.trigger(d)
-        label = "gen --parse {} --emit {} tpl={} infer_imports={} prepend={} imports_from_file={} entries={} out_present={}".format(
-            o["parse"], o["emit"], o["tpl"], o["infer_imports"], o["prepend"], o["imports_from_file"], o["entries"], o["out_present"])
+        label = "gen --parse {} --emit {} tpl={} infer_imports={} prepend={} imports_from_file={} entries={}{} out_present={}".format(
+            o["parse"], o["emit"], o["tpl"], o["infer_imports"], o["prepend"], o["imports_from_file"], o["entries"],
+            " (mixed kinds)" if o.get("mixed") else "", o["out_present"])
         if not res["fails"]:
             run.held(key)
         else:
